@@ -121,7 +121,7 @@ def executeReplace (w : World) (p : Package) : World :=
         let (w, _, _) := w.txnPlace { market := p.market, client := o.client.getD ((w.clients.head?.map (·.id)).getD 0) } rid none false false
         let w := w.orderExecutable rid
         (w.tradeExit o.trade, failed)
-      | .failure => ((w.orderExecutable oid).tradeExit o.trade, failed)) (w, 0)
+      | .failure => (((w.orderExecutionComplete rid).orderExecutable oid).tradeExit o.trade, failed)) (w, 0)
   let w := w.addTransaction p.client (w.packageOrders p).length
   if failed ≠ 0 then w.addTransaction p.client failed true else w
 
